@@ -289,7 +289,9 @@ def build(r, env=None, cc=None):
                     q = r["prequery"]
                     {"flatten": m.flatten, "leafs": m.leafs, "default_prios": lambda: m.default_prios, "ge_polyhedron": lambda: m.ge_polyhedron,
                      "variables": lambda: m.variables, "to_text": m.to_text, "errors": m.errors}[q]()
-                except Exception:
+                except (KeyboardInterrupt, SystemExit):
+                    raise
+                except BaseException:          # incl. pyo3 panics of the native wheel on pre-fixed sub-propositions (not this question's matter)
                     pass
     else:
         raise KeyError(k)
